@@ -1306,12 +1306,67 @@ def assign(t, v, fr, node):
         nb = store_sub(base, idx, v, node)
         if isinstance(t.value, (ast.Name, ast.Attribute, ast.Subscript)):
             assign(t.value, nb, fr, node)
+        if isinstance(t.value, ast.Name):
+            # numpy views (reshape / transpose / basic slices of a named array) share their storage with the array: an element
+            # store through one name is seen through the others
+            views = getattr(fr, "views", None) or {}
+            group = _view_group(views, t.value.id)
+            for other in group:
+                if other != t.value.id and other in fr.env and isinstance(num(fr.env[other]), (Deg, Any_)):
+                    fr.env[other] = store_sub(fr.env[other], idx, v, node)
     elif isinstance(t, ast.Attribute):
         o = ev(t.value, fr)
         if isinstance(o, Obj):
             o.attrs[t.attr] = v
     elif isinstance(t, ast.Starred):
         assign(t.value, v, fr, node)
+
+
+VIEW_METHODS = {"reshape", "transpose", "swapaxes", "view", "squeeze"}
+VIEW_FUNCS = {"numpy.reshape", "numpy.transpose", "numpy.moveaxis", "numpy.swapaxes", "numpy.squeeze", "numpy.atleast_2d", "numpy.expand_dims"}
+
+
+def _view_base(e, fr):
+    """name of the array `e` is a numpy view of (None: e creates new storage or the base has no name)"""
+    while True:
+        if isinstance(e, ast.Attribute) and e.attr == "T":
+            e = e.value
+        elif isinstance(e, ast.Call) and isinstance(e.func, ast.Attribute) and e.func.attr in VIEW_METHODS:
+            e = e.func.value
+        elif isinstance(e, ast.Call) and e.args and _callee_text(e, fr) in VIEW_FUNCS:
+            e = e.args[0]
+        elif isinstance(e, ast.Subscript):
+            sl = e.slice.elts if isinstance(e.slice, ast.Tuple) else [e.slice]
+            if not all(isinstance(x, ast.Slice) or (isinstance(x, ast.Constant) and (x.value is None or x.value is Ellipsis or isinstance(x.value, int))) for x in sl):
+                return None           # fancy / mask indexing copies
+            e = e.value
+        else:
+            break
+    return e.id if isinstance(e, ast.Name) else None
+
+
+def _callee_text(e, fr):
+    f = e.func
+    parts = []
+    while isinstance(f, ast.Attribute):
+        parts.append(f.attr)
+        f = f.value
+    if isinstance(f, ast.Name):
+        parts.append({"np": "numpy"}.get(f.id, f.id))
+    return ".".join(reversed(parts))
+
+
+def _view_group(views, name):
+    """all names sharing storage with `name` (transitively, both directions)"""
+    group, todo = {name}, [name]
+    while todo:
+        n = todo.pop()
+        for a, b in views.items():
+            for x, y in ((a, b), (b, a)):
+                if x == n and y not in group:
+                    group.add(y)
+                    todo.append(y)
+    return group
 
 
 def store_sub(base, idx, v, node):
@@ -1397,6 +1452,18 @@ def _exec_stmt(s, fr):
         for t in s.targets:
             if isinstance(t, ast.Name):
                 fr.env.pop(t.id + "@orig", None)
+                if getattr(fr, "views", None) is None:
+                    try:
+                        fr.views = {}
+                    except Exception:
+                        pass
+                if getattr(fr, "views", None) is not None:
+                    fr.views.pop(t.id, None)
+                    for k_ in [k_ for k_, b_ in fr.views.items() if b_ == t.id]:
+                        fr.views.pop(k_)
+                    vb = _view_base(s.value, fr)
+                    if vb is not None and vb != t.id and not isinstance(s.value, ast.Name):
+                        fr.views[t.id] = vb
             assign(t, v, fr, s)
     elif isinstance(s, ast.AnnAssign):
         if s.value is not None:
